@@ -33,3 +33,15 @@ package helpers
 //@   ensures read_errors(b) <= 0 && agg != nil && parse_errors(agg) > 0 ==> result != nil && exit_code(result) == 2
 //@   ensures read_errors(b) <= 0 && !(agg != nil && parse_errors(agg) > 0) && matched_lines(e) == 0 ==> result != nil && exit_code(result) == 1
 //@   ensures read_errors(b) <= 0 && !(agg != nil && parse_errors(agg) > 0) && matched_lines(e) != 0 ==> result == nil
+
+// C13: sort name / modifier parsing. `value` sorts descending unless asked otherwise;
+// :asc / :desc force the direction, :rev / :reverse flip the default; anything else is an error.
+//@ pred sf0(n) := if str_index(n, ":") < 0 then n else n[0:str_index(n, ":")]
+//@ pred sf1(n) := n[str_index(n, ":") + 1 : (if str_index(n[str_index(n, ":") + 1:], ":") < 0 then len(n) else str_index(n, ":") + 1 + str_index(n[str_index(n, ":") + 1:], ":"))]
+//@ func parseSort
+//@   pure
+//@   ensures [no-modifier] str_index(name, ":") < 0 ==> err == nil && realname == str_lower(name) && reverse == (str_lower(name) == "value")
+//@   ensures [asc] str_index(name, ":") >= 0 && str_lower(sf1(name)) == "asc" ==> err == nil && realname == str_lower(sf0(name)) && !reverse
+//@   ensures [desc] str_index(name, ":") >= 0 && str_lower(sf1(name)) == "desc" ==> err == nil && realname == str_lower(sf0(name)) && reverse
+//@   ensures [rev] str_index(name, ":") >= 0 && (str_lower(sf1(name)) == "rev" || str_lower(sf1(name)) == "reverse") ==> err == nil && reverse == !(str_lower(sf0(name)) == "value")
+//@   ensures [bad-modifier] str_index(name, ":") >= 0 && str_lower(sf1(name)) != "asc" && str_lower(sf1(name)) != "desc" && str_lower(sf1(name)) != "rev" && str_lower(sf1(name)) != "reverse" ==> err != nil
